@@ -153,3 +153,53 @@ def alphabet : List String := ["a", "b", "c", "d", "e", "f"]
 def domain (n : Nat) : List Gate := ops.flatMap fun op => treesWith 3 op (alphabet.take n)
 
 end O2P.Gate
+
+/-! ### `get_weighted_cover` (tel2puml/utils.py): the greedy cover used to find AND groups below an OR
+
+Sets are duplicate-free lists.  Python's `max` over a set picks *some* maximal candidate (the iteration order of
+a set of frozensets depends on the hash seed), so the model returns the outcomes of every choice. -/
+namespace O2P.Gate
+
+def interS (a b : List String) : List String := a.filter b.contains
+def diffS (a b : List String) : List String := a.filter fun x => !b.contains x
+def subsetS (a b : List String) : Bool := a.all b.contains
+def sameS (a b : List String) : Bool := subsetS a b && subsetS b a
+
+/-- `len(s & u) / len(s)**2 ≤ len(t & u) / len(t)**2`, compared exactly (the quotients of small integers are
+distinct doubles exactly when they are distinct rationals) -/
+def keyLe (u s t : List String) : Bool :=
+  decide ((interS s u).length * (t.length * t.length) ≤ (interS t u).length * (s.length * s.length))
+
+/-- the candidates `max(event_sets, key=…)` may return -/
+def argmaxes (es : List (List String)) (u : List String) : List (List String) :=
+  es.filter fun s => es.all fun t => keyLe u t s
+
+/-- the `while universe:` loop under every choice; `none` = the function returns `None` -/
+def greedy : Nat → List (List String) → List String → List (List String) → List (Option (List (List String)))
+  | 0, _, _, _ => [none]
+  | fuel + 1, es, u, acc =>
+    if u.isEmpty then [some acc] else
+    (argmaxes es u).flatMap fun s =>
+      if (diffS u s).length == u.length then [none] else greedy fuel es (diffS u s) (acc ++ [s])
+
+/-- `for cover_set in weighted_cover: if event_set & cover_set == cover_set: event_set -= cover_set` -/
+def reduceBy (cover : List (List String)) (e : List String) : List String :=
+  cover.foldl (fun e c => if subsetS c e then diffS e c else e) e
+
+def disjointS (a b : List String) : Bool := (interS a b).isEmpty
+
+def pairwiseDisjoint : List (List String) → Bool
+  | [] => true
+  | c :: cs => cs.all (disjointS c) && pairwiseDisjoint cs
+
+def checkCover (es cover : List (List String)) : Bool :=
+  es.all (fun e => (reduceBy cover e).isEmpty) && pairwiseDisjoint cover
+
+/-- every outcome of `get_weighted_cover(event_sets, universe)`; the event sets are non-empty (an empty one makes
+the Python code divide by zero) -/
+def weightedCover (es0 : List (List String)) (u : List String) : List (Option (List (List String))) :=
+  let es := es0.filter fun s => !sameS s u
+  if es.isEmpty then [none] else
+  (greedy (u.length + 1) es u []).map fun r => r.bind fun c => if checkCover es c then some c else none
+
+end O2P.Gate
